@@ -292,6 +292,18 @@ pub fn make_case(sd: &Seeds, seed: u64, idx: u64) -> Case {
         8 => {
             // the rich document with its page content (and the form XObject / pattern streams) replaced by content-stream token soup
             let mut objs = richdoc::objects();
+            if r.below(4) == 0 {
+                // a long content stream made of one short snippet repeated (about 1 MB decoded, Flate-compressed in the file): work
+                // that is quadratic in the stream length, or recursion that follows the nesting, only shows at this size
+                const SNIPPETS: [&[u8]; 16] = [b"BI ID\n", b"BI /W 1 /H 1 /BPC 8 /CS /G ID x EI ", b"BI ID x\nEI ", b"q ", b"[", b"[(a)", b"<< /A ", b"(", b"BT ", b"/N BDC ", b"0 0 m ", b"1 ", b"/F1 1 Tf (x) Tj ", b"% c\n", b"<", b"BX "];
+                let snip = *r.pick(&SNIPPETS);
+                let total = 900_000 + r.below(400_000) as usize;
+                let mut soup = Vec::with_capacity(total + 16);
+                while soup.len() < total { soup.extend_from_slice(snip); }
+                let z = miniz_oxide::deflate::compress_to_vec_zlib(&soup, 6);
+                if let Some((_, o)) = objs.iter_mut().find(|(n, _)| *n == 6) { if let crate::mkpdf::Obj::Stream(d, data) = o { d.retain(|(k, _)| k != b"Filter"); d.push((b"Filter".to_vec(), crate::mkpdf::name("FlateDecode"))); *data = z; } }
+                return Case { bytes: richdoc::write(&objs, Layout::Classic, b""), password: vec![], cfg, labels: "content-repeated".into(), deep: false };
+            }
             for nr in [6u32, 9, 16, 17, 46] {
                 if nr != 6 && r.below(3) != 0 { continue; }
                 let soup = content_soup(&mut r);
